@@ -58,7 +58,7 @@ def variants(c, rng, tier):
         out.append(("pattern-axis-roll", dict(c, pp=np.roll(np.array(c["pp"]), sft, axis=1))))
     # 4. hint triples (orientation point off the axis), index 0 included
     pn = len(c["pel"])
-    if pn >= 3:
+    if pn >= 3 and not c.get("noisy"):      # hinted searches only on exact copies (see findgen.make_case)
         trip = []
         for a1, a2, o in itertools.permutations(range(pn), 3):
             ax = c["pp"][a2] - c["pp"][a1]
